@@ -257,11 +257,11 @@ func (check typecheck) binaryExpr(n *node) error {
 		if k != k0 || k != k1 {
 			return n.cfgErrorf("cannot use type %s as type %s in assignment", c0.typ.id(), n.typ.id())
 		}
-	case aRem:
+	case aRem, aRemAssign:
 		if zeroConst(c1) {
 			return n.cfgErrorf("invalid operation: division by zero")
 		}
-	case aQuo:
+	case aQuo, aQuoAssign:
 		if zeroConst(c1) {
 			return n.cfgErrorf("invalid operation: division by zero")
 		}
@@ -379,8 +379,21 @@ func (check typecheck) logicalExpr(n *node) error {
 	return nil
 }
 
+// zeroConst tells if n is a numeric constant equal to zero. An untyped operand is not
+// always a constant, as in 1 << n.
 func zeroConst(n *node) bool {
-	return n.typ.untyped && constant.Sign(n.rval.Interface().(constant.Value)) == 0
+	if !n.rval.IsValid() {
+		return false
+	}
+	c := constantOf(n.rval)
+	if c == nil {
+		return false
+	}
+	switch c.Kind() {
+	case constant.Int, constant.Float, constant.Complex:
+		return constant.Sign(c) == 0
+	}
+	return false
 }
 
 func (check typecheck) index(n *node, max int) error {
